@@ -261,6 +261,35 @@ impl G {
                 let b0 = sub(self, 0);
                 format!("match En.A({v1}, {v2}) {{ A({y}, {y}z) if {c} => {{ {b0} }}, _ => {{ }}, }}")
             }
+            St::ArmExit(kind) => {
+                // the WHOLE body of the taken arm leaves the function while the arm's owned
+                // bindings are alive (seeded change C03-9: bindings of an arm whose body
+                // diverges were not put on the arm's frame)
+                self.features.push(["arm_body_exits", "arm_body_exits_two_binders", "arm_body_exits_guarded", "arm_body_exits_nested"][kind as usize]);
+                let y = self.fresh("y");
+                let c = self.cond();
+                let v1 = self.v();
+                let v2 = self.v();
+                // leave with a constant, or with the binding itself (moved into the result)
+                let ret = match self.sig {
+                    Sig::Plain | Sig::TrArg | Sig::StrListArg => "return 7;".to_string(),
+                    Sig::RetTr => format!("return {y};"),
+                    Sig::RetOpt => format!("return Option.Some({y});"),
+                    Sig::Filter => format!("reject {y};"),
+                };
+                let ret_const = match self.sig {
+                    Sig::Plain | Sig::TrArg | Sig::StrListArg => "return 8;".to_string(),
+                    Sig::RetTr => format!("return {};", self.v()),
+                    Sig::RetOpt => "return Option.None;".to_string(),
+                    Sig::Filter => format!("reject {};", self.v()),
+                };
+                match kind {
+                    0 => format!("match opt({c}, {v1}) {{ Some({y}) => {{ {ret} }}, None => {{ }}, }}"),
+                    1 => format!("match En.A({v1}, {v2}) {{ A({y}, {y}z) => {{ {ret_const} }}, _ => {{ }}, }}"),
+                    2 => format!("match opt(true, {v1}) {{ Some({y}) if {c} => {{ {ret_const} }}, Some({y}) => {{ emit_tr({y}); }}, None => {{ }}, }}"),
+                    _ => format!("match opt(true, {v1}) {{ Some({y}) => {{ match opt({c}, {v2}) {{ Some({y}n) => {{ {ret} }}, None => {{ emit_tr({y}); }}, }} }}, None => {{ }}, }}"),
+                }
+            }
             St::Return => {
                 self.features.push("early_return");
                 let c = self.cond();
@@ -481,9 +510,16 @@ pub enum St {
     /// failing guard (3), examinee reassigned by a guard that may succeed (4), the
     /// record a matched field came from reassigned by the guard (5)
     Alias(u8),
+    /// the whole body of a match arm is an exit: one owned binding, moved into the result
+    /// (0), two owned bindings, constant result (1), after a guard (2), in a nested match (3)
+    ArmExit(u8),
 }
 
-pub const STMTS: [St; 52] = [
+pub const STMTS: [St; 56] = [
+    St::ArmExit(0),
+    St::ArmExit(1),
+    St::ArmExit(2),
+    St::ArmExit(3),
     St::Alias(0),
     St::Alias(1),
     St::Alias(2),
